@@ -33,7 +33,7 @@ ASSUMPTIONS = [
 FEATURES = ['sibling_prefix', 'outside_tree', 'link_in_out_file', 'link_in_out_dir', 'link_in_in',
             'link_out_in_dir', 'chain', 'dangling', 'ext_only_link', 'dir_beside_tex', 'latex_ext',
             'nested_include', 'link_to_base', 'deep_base', 'abs_links', 'dir_tex_link', 'base_dot_tex',
-            'case_sibling', 'dot_links', 'out_link_to_nest', 'dotdot_names', 'odd_names']
+            'case_sibling', 'dot_links', 'out_link_to_nest', 'dotdot_names', 'odd_names', 'name_and_ext']
 PERSISTENT_FEATURES = ['loop', 'unreadable_file', 'unsearchable_dir', 'non_utf8', 'long_name', 'long_chain']
 
 
@@ -183,6 +183,19 @@ def gen_layout(rng, batch):
         b.d(base + '/x')
         b.f(base + '/x.tex')
         b.f(base + '/x/y.tex')
+    if 'name_and_ext' in feats:
+        # a name that exists as it is *and* with extensions: the name itself must win
+        b.f(base + '/n1')
+        b.f(base + '/n1.tex')
+        b.f(base + '/n1.latex')
+        b.f(base + '/n2')
+        b.f(base + '/n2.latex')
+        b.f(base + '/n3')
+        b.l(base + '/n3.latex', tgt(base, rng.choice(outs)))
+        b.f(base + '/n4.tex')
+        b.l(base + '/n4.tex.latex', tgt(base, rng.choice(outs)))
+        b.f(base + '/sub/n5.tex')
+        b.f(base + '/sub/n5.tex.tex')
     if 'dotdot_names' in feats:
         # inside names that merely *start* with two dots
         b.f(base + '/..appendix.tex')
@@ -335,7 +348,8 @@ def gen_name(rng, fs, res, basenode, layout):
                            'sub/top/../secret', 'lnkd/backf', 'lnkd/back2', '../out/backf', 'lnkd/../secret',
                            'li/../../secret', '../' + bn.swapcase() + '/secret', '../' + bn.lower() + '/secret',
                            '../' + bn.upper() + '/a.tex', 'lnkd/../' + bn.upper() + '/secret',
-                           '..appendix', '..appendix.tex', '..drafts/d', 'alias', '..', '...tex', '../..appendix'])
+                           '..appendix', '..appendix.tex', '..drafts/d', 'alias', '..', '...tex', '../..appendix',
+                           'n1', 'n2', 'n3', 'n4', 'n4.tex', 'sub/n5', 'sub/n5.tex', 'n1.tex'])
         return name
     # mutations
     x = rng.random()
@@ -797,3 +811,7 @@ def coverage_extra(batch):
         'programs_with_breaches': st.get('programs-with-transient-breaches', 0)}}
 
 STATES_MEASURE = ('distinct (layout feature set, name class, outcome) triples plus distinct fired fault sites (call kind, errno, call index)')
+
+# wall-clock guard per forked child (a program normally takes milliseconds to a second); only ever
+# turns a hang into 'timeout', which is confirmed twice before it is reported
+CHILD_WALL_S = 20
